@@ -298,6 +298,12 @@ def _shipped(tier, seed):
                 if g["kind"] == "noactive":
                     d["lsc"] = [None] + [{"kind": "metaepoch", "m": 1}] * (len(eng) - 1)
                 out.append(d)
+    # every deme stops by its local condition long before the global metaepoch limit: run() still performs n metaepochs
+    for eng in (("SEA", "DE"), ("DE", "SEA", "SHADE"), ("LHS",), ("GA", "CMAf")):
+        for n in (5, 7):
+            for drive in ("run", "steps"):
+                out.append(dict(engines=list(eng), gens=1, sprout={"kind": "simple", "L": 2}, gsc={"kind": "metaepoch", "n": n}, seed=1 + seed % 1000, Mh=9, drive=drive,
+                                lsc=[{"kind": "metaepoch", "m": 2}] + [{"kind": "metaepoch", "m": 1}] * (len(eng) - 1)))
     # 3-level trees in which the middle level has stopped for a while but leaves are still running
     for eng in (("SEA", "DE", "CMAf"), ("DE", "SEA", "SHADE"), ("GA", "SOB", "DE")):
         for n in (0, 1, 2):
